@@ -726,8 +726,13 @@ func (p *processor) ProcessBlock(ctx context.Context, block sync.Block) error {
 					p.haltedReason = fmt.Sprintf("error adding leaf to the exit tree: %v", err)
 					p.mu.Unlock()
 					p.log.Errorf("processor halted: %s", p.haltedReason)
+
+					return sync.ErrInconsistentState
 				}
-				return sync.ErrInconsistentState
+				// any other error (e.g. a storage failure) says nothing about the consistency of the state:
+				// the block is rolled back and has to be processed again
+				p.log.Errorf("failed to add leaf to the exit tree at block %d: %v", block.Num, err)
+				return err
 			}
 			if err = meddler.Insert(tx, bridgeTableName, event.Bridge); err != nil {
 				p.log.Errorf("failed to insert bridge event at block %d: %v", block.Num, err)
